@@ -69,6 +69,7 @@ func gen(r *hx.Rand, n int, tier string, emit func(string), st *hx.Stats) {
 		c := r.Fork()
 		m, ts := fga.GenModel(c, fga.DefaultOpts())
 		dense := false
+		usersetReq := false
 		switch c.Intn(10) {
 		case 0, 1, 2:
 			m, ts = fga.GenStrategyModel(c)
@@ -78,6 +79,11 @@ func gen(r *hx.Rand, n int, tier string, emit func(string), st *hx.Stats) {
 			m, ts = genCycleModel(c)
 			dense = c.Chance(1, 2)
 			st.Inc("cycle-model")
+		case 6, 7:
+			m, ts = genShapeModel(c)
+			dense = true
+			usersetReq = true
+			st.Inc("shape-model")
 		}
 		if len(m.Types) < 2 {
 			continue
@@ -89,7 +95,17 @@ func gen(r *hx.Rand, n int, tier string, emit func(string), st *hx.Stats) {
 		tuples := fga.GenTuples(c, m, nt)
 		for k := 0; k < 4 && i < n; k++ {
 			rq := fga.GenReq(c, m, tuples)
-			if dense && c.Chance(2, 3) {
+			if usersetReq && c.Chance(1, 2) {
+				// shape models: userset subjects of the aliasing type, sometimes on the requested object itself
+				rq.User = "group:" + hx.Pick(c, []string{"a", "b", "c"}) + "#" + hx.Pick(c, []string{"member", "owner", "admin"})
+				if c.Chance(1, 4) {
+					for _, t := range m.Types {
+						if t.Name == fga.TypeOf(rq.Obj) {
+							rq.User = rq.Obj + "#" + hx.Pick(c, t.Rels).Name
+						}
+					}
+				}
+			} else if dense && c.Chance(2, 3) {
 				// strategy / cycle models: ask for an object subject on an object that has tuples
 				rq.User = "user:" + hx.Pick(c, []string{"x", "y", "z"})
 			}
